@@ -4,28 +4,31 @@ import JunoModel.C12.ProofsNonVacuity
 namespace Juno.C12
 open Juno.C12.Abs
 
-def N4 : NetEnv := ⟨E4, fun _ => env4, fun _ => 0⟩
+/-- the shipped shape: mock validators, the driver drops gossiped messages of the pseudo-sender 9 -/
+def N4 : NetEnv := { E := E4, envOf := fun _ => env4, h0 := fun _ => 0, excl := fun a => a = 9 }
+
+theorem N4_ok : NetOK N4 := ⟨E4_wf, fun _ => env4_ok, fun _ h => Or.inr h⟩
 
 /-- a run of the composed system in which validator 0's machine commits value 8 at height 0 -/
 theorem N4_run_commits : ∃ net, NetReach N4 net ∧ Action.commit ⟨0, 0, 0, -1, 8⟩ ∈ (net.node 0).out := by
-  have nb0 : ¬ N4.E.byz 0 := by show ¬ (0 = 3); decide
-  have nb1 : ¬ N4.E.byz 1 := by show ¬ (1 = 3); decide
+  have nb0 : ¬ N4.E.byz 0 := by show ¬ (0 = 3 ∨ 0 = 9); decide
+  have nb1 : ¬ N4.E.byz 1 := by show ¬ (1 = 3 ∨ 1 = 9); decide
   have r1 := NetReach.step (NetReach.init (N := N4)) (NetStep.start _ 0 nb0 rfl)
   have r2 := NetReach.step r1 (NetStep.start _ 1 nb1 rfl)
   have r3 := NetReach.step r2 (NetStep.event _ 1 (.proposal ⟨0, 0, 0, -1, 8⟩) nb1 rfl trivial
-    (fun c hc => by cases hc; exact Or.inr (by decide)))
+    (fun c hc => by cases hc; exact ⟨Or.inr (by decide), by show ¬ ((_ : Nat) = 9); decide⟩))
   have r4 := NetReach.step r3 (NetStep.event _ 0 (.prevote ⟨0, 0, 1, some 8⟩) nb0 rfl trivial
-    (fun c hc => by cases hc; exact Or.inr (by decide)))
+    (fun c hc => by cases hc; exact ⟨Or.inr (by decide), by show ¬ ((_ : Nat) = 9); decide⟩))
   have r5 := NetReach.step r4 (NetStep.event _ 0 (.prevote ⟨0, 0, 3, some 8⟩) nb0 rfl trivial
-    (fun c hc => by cases hc; exact Or.inl rfl))
+    (fun c hc => by cases hc; exact ⟨Or.inl (Or.inl rfl), by show ¬ ((_ : Nat) = 9); decide⟩))
   have r6 := NetReach.step r5 (NetStep.event _ 1 (.prevote ⟨0, 0, 0, some 8⟩) nb1 rfl trivial
-    (fun c hc => by cases hc; exact Or.inr (by decide)))
+    (fun c hc => by cases hc; exact ⟨Or.inr (by decide), by show ¬ ((_ : Nat) = 9); decide⟩))
   have r7 := NetReach.step r6 (NetStep.event _ 1 (.prevote ⟨0, 0, 3, some 8⟩) nb1 rfl trivial
-    (fun c hc => by cases hc; exact Or.inl rfl))
+    (fun c hc => by cases hc; exact ⟨Or.inl (Or.inl rfl), by show ¬ ((_ : Nat) = 9); decide⟩))
   have r8 := NetReach.step r7 (NetStep.event _ 0 (.precommit ⟨0, 0, 3, some 8⟩) nb0 rfl trivial
-    (fun c hc => by rcases hc with hc | hc <;> cases hc; exact Or.inl rfl; trivial))
+    (fun c hc => by rcases hc with hc | hc <;> cases hc; exact ⟨Or.inl (Or.inl rfl), by show ¬ ((_ : Nat) = 9); decide⟩; exact ⟨trivial, trivial⟩))
   have r9 := NetReach.step r8 (NetStep.event _ 0 (.precommit ⟨0, 0, 1, some 8⟩) nb0 rfl trivial
-    (fun c hc => by rcases hc with hc | hc <;> cases hc; exact Or.inr (by decide); trivial))
+    (fun c hc => by rcases hc with hc | hc <;> cases hc; exact ⟨Or.inr (by decide), by show ¬ ((_ : Nat) = 9); decide⟩; exact ⟨trivial, trivial⟩))
   exact ⟨_, r9, by decide⟩
 
 /-- … and a run in which TWO correct validators (0 and 1) commit at height 0, so the hypotheses of
@@ -34,29 +37,29 @@ machine with a non-empty vote counter that has locked and moved to the next heig
 theorem N4_run_two_commit : ∃ net, NetReach N4 net ∧
     Action.commit ⟨0, 0, 0, -1, 8⟩ ∈ (net.node 0).out ∧ Action.commit ⟨0, 0, 0, -1, 8⟩ ∈ (net.node 1).out ∧
     (net.node 0).m.state.height = 1 ∧ ∃ s, Sim N4.E (N4.envOf 0) s (net.node 0).m := by
-  have nb0 : ¬ N4.E.byz 0 := by show ¬ (0 = 3); decide
-  have nb1 : ¬ N4.E.byz 1 := by show ¬ (1 = 3); decide
+  have nb0 : ¬ N4.E.byz 0 := by show ¬ (0 = 3 ∨ 0 = 9); decide
+  have nb1 : ¬ N4.E.byz 1 := by show ¬ (1 = 3 ∨ 1 = 9); decide
   have r1 := NetReach.step (NetReach.init (N := N4)) (NetStep.start _ 0 nb0 rfl)
   have r2 := NetReach.step r1 (NetStep.start _ 1 nb1 rfl)
   have r3 := NetReach.step r2 (NetStep.event _ 1 (.proposal ⟨0, 0, 0, -1, 8⟩) nb1 rfl trivial
-    (fun c hc => by cases hc; exact Or.inr (by decide)))
+    (fun c hc => by cases hc; exact ⟨Or.inr (by decide), by show ¬ ((_ : Nat) = 9); decide⟩))
   have r4 := NetReach.step r3 (NetStep.event _ 0 (.prevote ⟨0, 0, 1, some 8⟩) nb0 rfl trivial
-    (fun c hc => by cases hc; exact Or.inr (by decide)))
+    (fun c hc => by cases hc; exact ⟨Or.inr (by decide), by show ¬ ((_ : Nat) = 9); decide⟩))
   have r5 := NetReach.step r4 (NetStep.event _ 0 (.prevote ⟨0, 0, 3, some 8⟩) nb0 rfl trivial
-    (fun c hc => by cases hc; exact Or.inl rfl))
+    (fun c hc => by cases hc; exact ⟨Or.inl (Or.inl rfl), by show ¬ ((_ : Nat) = 9); decide⟩))
   have r6 := NetReach.step r5 (NetStep.event _ 1 (.prevote ⟨0, 0, 0, some 8⟩) nb1 rfl trivial
-    (fun c hc => by cases hc; exact Or.inr (by decide)))
+    (fun c hc => by cases hc; exact ⟨Or.inr (by decide), by show ¬ ((_ : Nat) = 9); decide⟩))
   have r7 := NetReach.step r6 (NetStep.event _ 1 (.prevote ⟨0, 0, 3, some 8⟩) nb1 rfl trivial
-    (fun c hc => by cases hc; exact Or.inl rfl))
+    (fun c hc => by cases hc; exact ⟨Or.inl (Or.inl rfl), by show ¬ ((_ : Nat) = 9); decide⟩))
   have r8 := NetReach.step r7 (NetStep.event _ 0 (.precommit ⟨0, 0, 3, some 8⟩) nb0 rfl trivial
-    (fun c hc => by rcases hc with hc | hc <;> cases hc; exact Or.inl rfl; trivial))
+    (fun c hc => by rcases hc with hc | hc <;> cases hc; exact ⟨Or.inl (Or.inl rfl), by show ¬ ((_ : Nat) = 9); decide⟩; exact ⟨trivial, trivial⟩))
   have r9 := NetReach.step r8 (NetStep.event _ 0 (.precommit ⟨0, 0, 1, some 8⟩) nb0 rfl trivial
-    (fun c hc => by rcases hc with hc | hc <;> cases hc; exact Or.inr (by decide); trivial))
+    (fun c hc => by rcases hc with hc | hc <;> cases hc; exact ⟨Or.inr (by decide), by show ¬ ((_ : Nat) = 9); decide⟩; exact ⟨trivial, trivial⟩))
   have r10 := NetReach.step r9 (NetStep.event _ 1 (.precommit ⟨0, 0, 3, some 8⟩) nb1 rfl trivial
-    (fun c hc => by rcases hc with hc | hc <;> cases hc; exact Or.inl rfl; trivial))
+    (fun c hc => by rcases hc with hc | hc <;> cases hc; exact ⟨Or.inl (Or.inl rfl), by show ¬ ((_ : Nat) = 9); decide⟩; exact ⟨trivial, trivial⟩))
   have r11 := NetReach.step r10 (NetStep.event _ 1 (.precommit ⟨0, 0, 0, some 8⟩) nb1 rfl trivial
-    (fun c hc => by rcases hc with hc | hc <;> cases hc; exact Or.inr (by decide); trivial))
-  obtain ⟨s, hi⟩ := net_reach_inv N4 ⟨E4_wf, fun _ => env4_ok⟩ _ r11
+    (fun c hc => by rcases hc with hc | hc <;> cases hc; exact ⟨Or.inr (by decide), by show ¬ ((_ : Nat) = 9); decide⟩; exact ⟨trivial, trivial⟩))
+  obtain ⟨s, hi⟩ := net_reach_inv N4 N4_ok _ r11
   exact ⟨_, r11, by decide, by decide, by decide, s, (hi.node 0 nb0).1⟩
 
 end Juno.C12
